@@ -289,8 +289,10 @@ def run(tier, seed, work, repo, ill_suspects=None):
         for i, ty in enumerate(CTX_TYPES):
             for asy in (False, True):
                 dyn = '' if feature else 'dynamic: true,\n'
+                # the same type as the data of the initial state and of a later state
                 text = (f'name: M,\ncontext: {ty},\n{dyn}' + ('async: true,\n' if asy else '') +
-                        'initial: A,\nstates: [A, B(D)],\nevents: {\n  go { guards: [ok], transition: { from: A, to: B } }\n},')
+                        f'initial: A,\nstates: [A({ty}), B(D), Cc({ty})],\nevents: {{\n  go {{ guards: [ok], transition: {{ from: A, to: B }} }}\n'
+                        f'  on {{ transition: {{ from: B, to: Cc }} }}\n}},')
                 afn = 'async fn' if asy else 'fn'
                 code = (f'pub mod k{i}{int(asy)} {{\nuse super::*;\nuse state_machines::state_machine;\nstate_machine! {{\n{text}\n}}\n'
                         f'impl<S> M<S> {{ {afn} ok(&self, _c: &{ty}) -> bool {{ true }} }}\n'
